@@ -201,7 +201,12 @@ class Sample(object):
         # to work well enough.
         # Products with no activity do not constrain the decay time.
         initial = max(-log(target/Ia)/La for Ia, La in data if Ia > 0)
-        t, ft = find_root(initial, f, df)
+        # No single product is above target if the guess is negative; start at
+        # removal from the beam since the answer is a time after removal.
+        initial = max(initial, 0.)
+        # Tolerance relative to the target, so that the search does not stop
+        # at the initial guess when the activities are small.
+        t, ft = find_root(initial, f, df, tol=1e-10*target)
         percent_error = 100*abs(ft)/target
         if percent_error > 0.1:
             #return 1e100*365*24 # Return 1e100 rather than raising an error
